@@ -133,8 +133,15 @@ def int_spellings(t):
     if len(t) >= 2:
         out.append(t[0] + "_" + t[1:])
         out.append(t + "_")
-    out.append("0x_" + format(v, "x"))
+    h, b = format(v, "x"), format(v, "b")
+    out += ["0x_" + h, "0x" + h + "_", "0b" + b + "_", "0b_" + b]
+    if len(h) >= 2:
+        out.append("0x" + h[0] + "_" + h[1:])
+    if len(b) >= 2:
+        out.append("0b" + b[0] + "_" + b[1:])
+        out.append("0b" + b[:-1] + "__" + b[-1])
     out.append("0" + t)
+    out.append("00" + t)
     return out
 
 
@@ -226,6 +233,14 @@ def semicolon_variants(tokens):
     end of a block"""
     if tokens and tokens[-1] != ";":
         yield tokens + [";"]
+    if len(tokens) > 1 and tokens[-1] == ";" and tokens[-2] != "return":
+        yield tokens[:-1]
+    for k, t in enumerate(tokens):
+        # an existing optional semicolon can be dropped
+        if t == ";" and k + 1 < len(tokens) and \
+                tokens[k + 1] in ("end", "catch", "finally") and \
+                k > 0 and tokens[k - 1] != "return":
+            yield tokens[:k] + tokens[k + 1:]
     for k, t in enumerate(tokens):
         if t in ("end", "catch", "finally") and k > 0 and \
                 tokens[k - 1] not in (";", "do", "finally", "then", "else"):
